@@ -22,7 +22,8 @@ def rand_ident(rng, maxlen=8):
 STRING_POOL = ["x", "abc", "a b", "two  spaces", " lead", "trail ", "", "it's", 'say "hi"', "back\\slash", "C:\\temp\\new.csv", "tab\there", "nl\nhere",
                "é", "☃ snow", "mixed é☃\\t", "comma, colon: eq= hash# (paren) [brack]", "#notcomment", "007", "1.5", "True", "-5", "a:b", "http://x.y:80/z",
                "/abs/path/file.txt", "rel/path.csv", "%percent", "x.y", "a-b", "\\1", "D:\\surveys\\2019\\07\\p.csv", "end\\", "q'", '"', "'", "\r", "a\r\nb",
-               "\x41\u00e9", "very long " * 5, "1e5", "1e-05", "\\u2603", "\\N", "nul\\0"]
+               "\x41\u00e9", "very long " * 5, "1e5", "1e-05", "\\u2603", "\\N", "nul\\0",
+               "\U0001F600 grin", "\U00020BB7野家", "math \U0001D49C", "\uffff edge \U00010000", "50\\% cover", "\\\\server\\share\\x", "C:\\path\\data\\sites.gdb"]
 
 
 def is_ident(s):
@@ -40,7 +41,8 @@ def is_bare_safe(s):
 def rand_scalar(rng):
     r = rng.random()
     if r < 0.2:
-        return Val("int", rng.choice([0, 1, -1, 7, 42, -300, 10 ** 12, 5]))
+        return Val("int", rng.choice([0, 1, -1, 7, 42, -300, 10 ** 12, 5, 2 ** 53 + 1, -(2 ** 53) - 1, 9223372036854775807, 10 ** 30 + 7,
+                                      9007199254740993, int("9" * 400), -int("123456789" * 40)]))
     if r < 0.4:
         return Val("float", rng.choice([0.5, -1.25, 3.0, 100.0, 0.125, -0.001, 2.5, 1234.5678]))
     if r < 0.5:
